@@ -242,6 +242,8 @@ def lean_type(t):
         return 'Re.Regex'
     if t == 'exc':
         return 'Exc'
+    if t == 'module':
+        return 'String'
     if is_list(t):
         if elem(t) == '?':
             raise Unsupported('list of unknown element type')
@@ -269,6 +271,8 @@ def default_value(t):
         return '(default : Date)'
     if t == 'match':
         return '(default : Re.Match)'
+    if t == 'module':
+        return '""'
     if is_list(t) or is_dict(t):
         return '([] : %s)' % lean_type(t)
     if is_opt(t):
@@ -296,6 +300,8 @@ def lean_value(v, t):
         return '()'
     if t == 'date':
         return '(Date.mk %d %d %d)' % (v.year, v.month, v.day)
+    if t == 'module':
+        return '"%s"' % v.__name__
     if is_opt(t):
         if v is None:
             return '(none : %s)' % lean_type(t)
